@@ -160,6 +160,19 @@ func (g *c18Gen) step() {
 		g.add("fmt.Println(%s, %s, %s.Area(), draw.Count())", b1, b2, b1)
 		g.add("%s := &shape.Box{H: 4}", g.name("bx"))
 		g.add("fmt.Println(shape.New(1), %s.W+%s.H)", b2, b1)
+	case k < 9 && g.r.Chance(1, 5):
+		// variables and types of function type without results: such a statement may be the last text of a chunk
+		v := g.name("cb")
+		switch g.r.Intn(3) {
+		case 0:
+			g.add("var %s func()", v)
+		case 1:
+			g.add("var %s func(int)", v)
+		default:
+			g.add("type %s func(int, string)", g.name("H"))
+			g.add("var %s func(int) int", v)
+		}
+		g.add("println(%s == nil)", v)
 	case k < 9 && g.r.Chance(1, 6) && !g.hasPrint:
 		// a package-level function named like the predeclared print: from its declaration on the name is the package's
 		g.hasPrint = true
